@@ -101,6 +101,11 @@ def families(rng, N):
     yield "jitter", ((np.stack([gx.flatten(), gy.flatten()], 1)[:N] + 0.5 + 0.3 * rng.uniform(-1, 1, size=(N, 2))) / g) % 1
     b = rng.uniform(size=(N, 2)); b[:, 0] = np.where(rng.random(N) < 0.5, 1e-4 * rng.random(N), 1 - 1e-4 * rng.random(N)); yield "boundary", b
     x = rng.uniform(size=N); yield "nearcollinear", np.stack([x, (0.5 + 1e-3 * rng.normal(size=N)) % 1], 1)
+    # narrow bands (large empty circles, still within the density bound): horizontal and vertical, anywhere in the cell and hugging the wall
+    for axis in (0, 1):
+        w = rng.choice([0.05, 0.1, 0.2]); c = rng.choice([0.0, rng.uniform()])
+        b = rng.uniform(size=(N, 2)); b[:, axis] = (c + w * rng.uniform(size=N)) % 1
+        yield "band", b
 
 
 def judge(ctx, name, pts, shift, l, rep):
@@ -181,13 +186,17 @@ def run(ctx):
     reqs, meta = [], []
     Ns = [2, 3, 4, 5, 8, 10, 11, 12, 20, 40, 60] if quick else [2, 3, 4, 5, 6, 8, 10, 11, 12, 15, 20, 30, 40, 60, 100, 200]
     trials = 1 if quick else 5
-    for trial in range(trials):
-        for N in Ns:
+    plan = [(trial, N) for trial in range(trials) for N in Ns]
+    plan += [(100 + t, N) for t in range(3 if quick else 12) for N in (9, 10, 11, 12)]        # the replication-window threshold (N <= 10: 5x5, N > 10: 3x3)
+    for trial, N in plan:
+        if True:
             for fam, pts in families(rng, N):
                 if len(np.unique(np.round(pts, 12), axis=0)) < N:
                     continue
                 if fam in ("boundary", "nearcollinear") and N < 20:
                     continue                         # these families violate the density bound at small N (measured in the design phase)
+                if trial >= 100 and fam not in ("band", "uniform", "cluster"):
+                    continue
                 for shift in (False, True):
                     name = f"{fam}(N={N})#{trial}{'s' if shift else ''}"
                     rep = lambda what, **kw: ctx.impl_violation(f"{name}: {what}", dict(case=name, points=pts.tolist(), shift=shift, **kw))
